@@ -155,13 +155,14 @@ def _gate_matrix(gt):
     return U, 2 ** n
 
 
-def h_small(env, spec, n_qubits, form, remove_qubits=False, canary=False):
+def h_small(env, spec, n_qubits, form, remove_qubits=False, canary=False, op="remove_small_rotations"):
+    """op='simplify': the same statement for the threshold handed to simplify() (specs without mergeable / cancelling gates)"""
     thr = env.real("thr", lo=0, hi=0.1, nonzero=True)
     c, angles = build(env, spec, n_qubits, rng=(-5, 5))
     for a in angles.values():
         CU.periodic_small_angle_lemmas(env, a, ms=range(-3, 4), full=False)
     g0 = CU.gate_tuples(c)
-    out = _run_pass(c, "remove_small_rotations", form, param_threshold=thr, remove_qubits=remove_qubits)
+    out = _run_pass(c, op, form, param_threshold=thr, remove_qubits=remove_qubits)
     g1 = CU.gate_tuples(out)
     # out must be a subsequence of the input; the missing gates are the dropped ones
     dropped, j = [], 0
@@ -306,12 +307,16 @@ def h_struct(env, op, spec, n_qubits, spec2=None, n_qubits2=None, arg=None, cana
 
 
 # ------------------------------------------------------------------ (e) Clifford decomposition
-def h_clifford(env, name, ks, canary=False):
+def h_clifford(env, name, ks, canary=False, delta=0.0):
+    """delta > 0: angles a little ABOVE a multiple of pi/2, inside the documented tolerance (the only inexact angles that
+    Gate.is_clifford accepts): the decomposition is that of the multiple itself"""
     from tangelo.linq import Gate
     from tangelo.linq.helpers.circuits.clifford_circuits import decompose_gate_to_cliffords
     for k in ks:
-        theta = k * math.pi / 2
+        theta = k * math.pi / 2 + delta
         g = Gate(name, 0, parameter=theta)
+        if delta and not g.is_clifford():
+            continue
         out = decompose_gate_to_cliffords(g)
         got = [CU.gate_tuple(x) for x in (out if isinstance(out, list) else [out])]
         kk = k + 1 if canary else k
@@ -480,6 +485,10 @@ def shapes(tier, seed):
                                                 remove_qubits=True), policy=polc)
     add("small/PHASE-kept", h_small, dict(spec=[("PHASE", (0,), None, "a"), ("CPHASE", (0,), (1,), "b"), ("XX", (0, 1), None, "a")],
                                           n_qubits=None, form="function"), policy=polc)
+    for nm, form in (("RX", "function"), ("CRY", "method"), ("RZ", "method"), ("CRZ", "function")):
+        tg, ct = ((1,), (8,)) if nm[0] == "C" else ((1,), None)
+        add(f"small/simplify/{nm}/{form}", h_small, dict(spec=[("H", (8,), None, None), (nm, tg, ct, "a")], n_qubits=None, form=form, op="simplify"),
+            policy=polc)
     add("canary/small/RX", h_small, dict(spec=[("RX", (0,), None, "a")], n_qubits=None, form="function", canary=True), policy=polc,
         canary=True)
 
@@ -565,6 +574,8 @@ def shapes(tier, seed):
     # ---- (e) Clifford decomposition
     for nm in ROT1:
         add(f"clifford/{nm}", h_clifford, dict(name=nm, ks=list(range(-8, 9))))
+        for dl in (1e-6, 1e-9):
+            add(f"clifford/{nm}/+{dl}", h_clifford, dict(name=nm, ks=list(range(-8, 9)), delta=dl))
     add("canary/clifford/RY", h_clifford, dict(name="RY", ks=[1], canary=True), canary=True)
 
     # ---- (g) inputs unchanged by the out-of-place functions
